@@ -16,6 +16,13 @@ list, otherwise comma separated.  reads (SEGS): comma separated, never empty.
   req W SEGS                     -> per read `tag/fin/unused/nrs` joined by `;`, then ` ARGS BODY`
   enc.lp B | enc.ck LIST ERR | enc.v3 M HEADERS PARTS | enc.tuple LIST | dec.tuple B
   enc.args LIST | dec.args B | enc.req LIST BODY | enc.offsets s:l,s:l
+  dec.offsets B                  -> s:l,s:l | [] | E:ValueError
+  v3req W SEGS                   -> request-handler state after the whole input (server side, no
+                                    marker): `expecting/calls/finished/responses FIN UNUSED`, or
+                                    `E:first-handler-error FIN UNUSED` (the decoder goes on after a
+                                    handler error), or a framing error
+  dec.v2resp KIND B              -> `status/args/body REST` (KIND n|b|s) or E:…
+  enc.v2resp OK ARGS BODY CHUNKS ERR  (BODY, CHUNKS, ERR: `~` = absent)
 -/
 namespace BreezyVerif.C29
 
@@ -179,6 +186,43 @@ def parseOffsets (s : String) : Option (List (Nat × Nat)) :=
 
 def semi (l : List String) : String := ";".intercalate l
 
+def showOffsets (l : List (Nat × Nat)) : String :=
+  if l.isEmpty then "[]" else ",".intercalate (l.map fun p => toString p.1 ++ ":" ++ toString p.2)
+
+def showRqExp : RqExp → String
+  | .args => "args" | .body => "body" | .error => "error" | .end_ => "end" | .nothing => "nothing"
+
+def showRqCall : RqCall → String
+  | .args r => "A" ++ toHex r
+  | .body b => "B" ++ toHex b
+  | .postBodyError r => "P" ++ toHex r
+  | .end_ => "e"
+
+def showRq : Except RqErr Rq → String
+  | .error .unexpectedByte => "E:UnexpectedByte"
+  | .error .badStatusByte => "E:BadStatusByte"
+  | .error .unexpectedStruct => "E:UnexpectedStructure"
+  | .error .unexpectedBytes => "E:UnexpectedBytes"
+  | .error .prematureEnd => "E:PrematureEnd"
+  | .ok r => sep [showRqExp r.expecting,
+      (if r.calls.isEmpty then "[]" else "+".intercalate (r.calls.map showRqCall)),
+      showBool r.finished, toString r.responses]
+
+def parseOptBL (s : String) : Option (Option (List Bytes)) :=
+  if s == "~" then some none else (parseBL s).map some
+
+def showV2 : Except V2Err (V2Resp × Bytes) → String
+  | .error .incomplete => "E:Incomplete"
+  | .error .badVersion => "E:BadVersion"
+  | .error .badStatus => "E:BadStatus"
+  | .error .badBody => "E:BadBody"
+  | .ok (r, rest) =>
+    sep [(if r.ok then "ok" else "failed"), showBL r.args,
+      (match r.body with
+       | .none_ => "~"
+       | .bytes b => "b" ++ toHex b
+       | .stream cs => "s" ++ showChunks cs)] ++ " " ++ toHex rest
+
 def handleLine : List String → String
   | ["consts"] => " ".intercalate [toHex marker3, toHex request2, toHex response2]
   | ["lp", segs, mask] =>
@@ -264,6 +308,43 @@ def handleLine : List String → String
     match parseOffsets o with
     | some o => toHex (serialiseOffsets o)
     | none => "bad-op"
+  | ["dec.offsets", b] =>
+    match fromHex b with
+    | some b =>
+      match deserialiseOffsets b with
+      | some l => showOffsets l
+      | none => "E:ValueError"
+    | none => "bad-op"
+  | ["v3req", w, segs] =>
+    match parseBool w, parseSegs segs with
+    | some w, some l =>
+      let s := feedAll V3.feed (V3.init false) l
+      -- handler callbacks happen before a later framing error is detected
+      -- an error raised by the message handler does not stop the decoder: it goes on
+      -- parsing to find the end of the message (framing state reported in every case)
+      match Rq.run w {} s.events, s with
+      | .error e, _ => showRq (.error e) ++ " " ++ showBool s.finished ++ " " ++ toHex s.unused
+      | .ok _, .failed _ .badVersion => "E:BadVersion"
+      | .ok _, .failed _ .badKind => "E:BadKind"
+      | .ok r, _ => showRq (.ok r) ++ " " ++ showBool s.finished ++ " " ++ toHex s.unused
+    | _, _ => "bad-op"
+  | ["dec.v2resp", k, b] =>
+    match fromHex b with
+    | some b =>
+      if k == "n" then showV2 (v2Decode .none_ b)
+      else if k == "b" then showV2 (v2Decode .bytes b)
+      else if k == "s" then showV2 (v2Decode .stream b)
+      else "bad-op"
+    | none => "bad-op"
+  | ["enc.v2resp", ok, args, body, cs, err] =>
+    match parseBool ok, parseBL args, parseOptB body, parseOptBL cs, parseOptBL err with
+    | some ok, some args, some body, some cs, some err =>
+      match body, cs with
+      | some b, none => toHex (v2RespEncode ok args (some (.inl b)))
+      | none, some cs => toHex (v2RespEncode ok args (some (.inr (cs, err))))
+      | none, none => toHex (v2RespEncode ok args none)
+      | some _, some _ => "bad-op"
+    | _, _, _, _, _ => "bad-op"
   | _ => "bad-op"
 
 end BreezyVerif.C29
